@@ -120,6 +120,13 @@ def run(c, facts, tier):
         seen.add(key)
         c.ob("C17.cfg", holder, a, False, "profile-dependent attribute `#[%s]` in %s: the two builds contain different code here" % (a, holder), witness="nope" if "Positional" in holder else None)
     for holder, mname in macs:
+        if mname.startswith("debug_assert"):
+            # a debug assertion makes the builds differ only if it can fire: in the debug build it is a panic site of the
+            # function, and whether that site can be reached is what the C03 rules decide
+            from .. import report as _rep
+
+            _rep.require(c, facts, "c03", "C17.cfg", holder, mname, lambda o, holder=holder: o["site"] == holder and str(o["instance"]).startswith("core::panicking::"), "%s in %s exists in the debug build only; it is harmless iff it cannot fire — the panic sites of %s (debug build) are decided by the C03 rules" % (mname, holder, holder))
+            continue
         c.ob("C17.cfg", holder, mname, False, "profile-dependent macro %s in %s" % (mname, holder))
     structured = len(attrs) + len(macs)
     c.ob("C17.cfg", "crate", "textual cross-check agrees with the structured census", (len(txt) == 0) == (structured == 0) or len(txt) <= structured, "structured census: %d attribute(s) + %d macro(s); textual scan: %d line(s) %s" % (len(attrs), len(macs), len(txt), [(p, l) for p, l, _ in txt][:6]), nontrivial=False)
